@@ -312,6 +312,9 @@ class Composition(Loggable):
                 )
             return comp
 
+        # nothing upstream of this pull-based component needs an update;
+        # it may legitimately be reached again through another input
+        del chain[comp]
         return None
 
     def _collect_adapters(self):
